@@ -411,6 +411,30 @@ for _m in _PATHMODS:
         _m + '.join': 'prepends / replaces components',
         _m + '.normcase': 'case-folds and swaps separators on Windows',
     })
+# last-segment idioms spelled with a splitting function / a path object (the item kept afterwards is a Subscript / an
+# attribute, judged on top of these)
+NARROWING_CALLS.update({
+    're.split': 'splits the text at every match: each item is only a piece of it',
+    're.findall': 'keeps only the matching pieces',
+    're.search': 'keeps only a matching piece', 're.match': 'keeps only a matching piece', 're.fullmatch': 'keeps only a matching piece',
+})
+PATH_CLASSES = ('pathlib.PurePath', 'pathlib.PurePosixPath', 'pathlib.PureWindowsPath', 'pathlib.Path', 'pathlib.PosixPath', 'pathlib.WindowsPath')
+for _c in PATH_CLASSES:
+    NARROWING_CALLS[_c] = 'parses the text into path components (collapses separators and dot segments)'
+# attributes / methods of a path object built from the text: every one of them keeps a part or a normalised form
+PATH_NARROWING_ATTRS = {'name': 'keeps only the last component', 'stem': 'keeps only the last component without its suffix',
+                        'suffix': 'keeps only the extension', 'suffixes': 'keeps only the extensions', 'parent': 'drops the last component',
+                        'parts': 'the components, separators dropped', 'anchor': 'keeps only drive and root', 'drive': 'keeps only the drive',
+                        'root': 'keeps only the root'}
+PATH_NARROWING_METHODS = {'as_posix': 'normalised form with forward slashes', 'with_name': 'replaces the last component',
+                          'with_suffix': 'replaces the extension', 'with_stem': 'replaces the stem', 'relative_to': 're-expresses the path',
+                          'resolve': 'resolves links and normalises', 'absolute': 'prepends the working directory',
+                          'expanduser': 'rewrites a leading ~', '__str__': 'normalised form', '__fspath__': 'normalised form'}
+# methods of a compiled pattern (module constant bound to re.compile(...)) applied to the text
+PATTERN_METHODS = {'split': ('narrow', 'splits the text at every match: each item is only a piece of it'),
+                   'findall': ('narrow', 'keeps only the matching pieces'), 'search': ('narrow', 'keeps only a matching piece'),
+                   'match': ('narrow', 'keeps only a matching piece'), 'fullmatch': ('narrow', 'keeps only a matching piece'),
+                   'sub': ('rewrite', 'substitution'), 'subn': ('rewrite', 'substitution')}
 REWRITING_CALLS = {
     're.sub': 'substitution', 're.subn': 'substitution', 'html.escape': 'escaping', 'html.unescape': 'unescaping',
     'urllib.parse.quote': 'percent-encoding', 'urllib.parse.quote_plus': 'percent-encoding',
@@ -614,6 +638,23 @@ class Provenance:
         if isinstance(e, (ast.BinOp, ast.JoinedStr)):
             inner = self.classify_any(e, nid)
             return inner.step('rewrite', e, 'builds a new text around the value') if inner.derived else Origin()
+        if isinstance(e, ast.BoolOp):
+            # `a or b` / `a and b` evaluate to one of their operands: every operand may be the text (a falsy text
+            # operand is '' - also what the identity would give).  Operands that are plain tests (comparison, not)
+            # yield a bool, no text; they only choose.
+            out = Origin()
+            for x in e.values:
+                if isinstance(x, ast.Compare) or (isinstance(x, ast.UnaryOp) and isinstance(x.op, ast.Not)):
+                    continue
+                out = out.merge(self.classify(x, nid))
+            return out
+        if isinstance(e, ast.Attribute) and isinstance(e.ctx, ast.Load) and self._q(e) is None:
+            base = self.classify(e.value, nid)
+            if not base.derived:
+                return Origin()
+            if self._is_path_object(e.value, nid) and e.attr in PATH_NARROWING_ATTRS:
+                return base.step('narrow', e, 'PurePath.%s %s' % (e.attr, PATH_NARROWING_ATTRS[e.attr]))
+            raise UnknownIdiom('%s: attribute %s of a value built from the tracked value is not in the tables' % (self.f.qual, short(e)))
         if isinstance(e, ast.Call):
             return self._call(e, nid)
         if isinstance(e, (ast.Tuple, ast.List)):
@@ -627,6 +668,27 @@ class Provenance:
             raise UnknownIdiom('%s: cannot read how %s uses the tracked value' % (self.f.qual, short(e)))
         return Origin()
 
+    def _is_path_object(self, e, nid: int, depth: int = 3) -> bool:
+        """e is `PurePath(<...>)` (any pathlib class), `.parent` of one, or a local whose reaching definitions all are."""
+        if isinstance(e, ast.Call) and self._q(e.func) in PATH_CLASSES:
+            return True
+        if isinstance(e, ast.Attribute) and e.attr == 'parent':
+            return self._is_path_object(e.value, nid, depth)
+        if isinstance(e, ast.Name) and depth > 0:
+            ds = self.rd.at(nid, e.id)
+            return bool(ds) and all(d.kind == 'assign' and self._is_path_object(d.value, d.node, depth - 1) for d in ds)
+        return False
+
+    def _compiled_pattern(self, e) -> bool:
+        """e names a module-level constant bound to re.compile(...)."""
+        q = self.p.resolve_expr(self.f.module, e, self.f) if isinstance(e, (ast.Name, ast.Attribute)) else None
+        if not q:
+            return False
+        head, _, tail = q.rpartition('.')
+        m = self.p.modules.get(head)
+        v = m.consts.get(tail) if m is not None else None
+        return isinstance(v, ast.Call) and self.p.resolve_expr(m, v.func) == 're.compile'
+
     def _call(self, c: ast.Call, nid: int) -> Origin:
         fn = c.func
         args = list(c.args) + [k.value for k in c.keywords]
@@ -634,9 +696,22 @@ class Provenance:
             if self.classify_any(c, nid).derived:
                 raise UnknownIdiom('%s: star-arguments in %s' % (self.f.qual, short(c)))
             return Origin()
+        # method of a compiled pattern applied to the tracked text
+        if isinstance(fn, ast.Attribute) and fn.attr in PATTERN_METHODS and self._compiled_pattern(fn.value):
+            inner = Origin()
+            for a in args:
+                inner = inner.merge(self.classify(a, nid))
+            if not inner.derived:
+                return Origin()
+            kind, why = PATTERN_METHODS[fn.attr]
+            return inner.step(kind, c, 'Pattern.%s: %s' % (fn.attr, why))
         # method of the tracked text
         if isinstance(fn, ast.Attribute):
             recv = self.classify(fn.value, nid) if self._q(fn) is None else None
+            if recv is not None and recv.derived and self._is_path_object(fn.value, nid):
+                if fn.attr in PATH_NARROWING_METHODS:
+                    return recv.step('narrow', c, 'PurePath.%s: %s' % (fn.attr, PATH_NARROWING_METHODS[fn.attr]))
+                raise UnknownIdiom('%s: method %s of a path object built from the tracked value is not in the tables' % (self.f.qual, short(c)))
             if recv is not None and recv.derived:
                 if fn.attr in NARROWING_METHODS:
                     return recv.step('narrow', c, 'str.%s is not the identity' % fn.attr)
